@@ -1,7 +1,7 @@
 #!/usr/bin/env python3
 """cpp2v: translate a restricted fragment of C++ (clang JSON AST) into Gallina.
 
-Usage: cpp2v.py <spec.json> <outdir> [--repo /repo]
+Usage: cpp2v.py <spec.json | dir of per-module specs> <outdir> [--repo /repo] [--only Mod1,Mod2]
 
 The spec lists modules; each module names a source file and the functions to translate.
 The generated file coq/theories/Gen/<Module>.v contains one Definition per function, plus
@@ -1297,7 +1297,10 @@ def main():
         repo = sys.argv[sys.argv.index('--repo') + 1]
     if '--only' in sys.argv:
         only = set(sys.argv[sys.argv.index('--only') + 1].split(','))
-    spec = json.load(open(specp))
+    if os.path.isdir(specp):
+        spec = {'modules': [json.load(open(os.path.join(specp, f))) for f in sorted(os.listdir(specp)) if f.endswith('.json')]}
+    else:
+        spec = json.load(open(specp))
     os.makedirs(outdir, exist_ok=True)
     allmeta = {}
     allok = True
@@ -1307,7 +1310,8 @@ def main():
         ok, meta = run_module(spec, mod, repo, outdir)
         allmeta[mod['module']] = meta
         allok = allok and ok
-    json.dump(allmeta, open(os.path.join(outdir, 'cpp2v_meta.json' if not only else 'cpp2v_meta_%s.json' % '_'.join(sorted(only))), 'w'), indent=1)
+    for m, meta in allmeta.items():
+        json.dump(meta, open(os.path.join(outdir, 'cpp2v_meta_%s.json' % m), 'w'), indent=1)
     for m, meta in allmeta.items():
         for f in meta:
             if f['status'] != 'ok':
